@@ -326,15 +326,20 @@ def run(ctx):
                  ("string-terminated", dict(nargs=1, decl=4, have=12, payload=True, evj=1, specj=1, typ=STR, nul=True), True),
                  ("string-empty-room", dict(nargs=1, decl=4, have=4, payload=True, evj=1, specj=1, typ=STR, nul=False), False)]
         for name, c, want in cases:
-            def s_memchr(ex_, st, args, f, e, c=c):
-                return [((PTR("NULPOS") if c.get("nul") else NULL), {})]
-            exc = absint.Explorer(prog, effects=eff, summaries={"memchr": s_memchr}, loop_bound=4)
+            # the payload bytes are concrete in the abstract store (non-zero filler, a terminator as the last
+            # byte when the case has one): the terminator search may use memchr or a loop
+            from rules.strutil import byte_store, s_memchr
+            data = bytearray(b"\x41" * c["have"])
+            if c.get("nul") and c["have"]:
+                data[-1] = 0
+            exc = absint.Explorer(prog, effects=eff, summaries={"memchr": s_memchr}, loop_bound=c["have"] + 4)
             store = {("SPEC", F("ev_spec", "nargs")): INT(c["nargs"]), ("SPEC", F("ev_spec", "payload_size")): INT(c["decl"]),
                      ("SPEC", F("ev_spec", "is_jumbo")): INT(c.get("specj", 0)),
                      ("SPEC", A0 + F("ev_arg", "type")): INT(c.get("typ", I32)),
                      ("SPEC", A0 + F("ev_arg", "offset")): INT(4 if c.get("specj") else 0),
                      ("EV", F("emu_ev", "payload")): PTR("PL") if c["payload"] else NULL,
                      ("EV", F("emu_ev", "payload_size")): INT(c["have"]), ("EV", F("emu_ev", "is_jumbo")): INT(c.get("evj", 0))}
+            store.update(byte_store("PL", bytes(data)))
             outs = exc.run(d, [PTR("SPEC"), PTR("EV")], store)
             acc = [o for o in outs if o.kind == "ret" and o.ret == INT(0)]
             rej = [o for o in outs if o.kind == "ret" and o.ret != INT(0)]
